@@ -158,6 +158,8 @@ var c16Excluded = map[string]string{
 	"giant-blockstring": "one giant token", "blockstring-quotes": "one giant token", "giant-comment": "one giant token", "unterminated-string": "one giant token",
 	"comma-flood": "one run of ignored characters", "crlf-flood": "one run of ignored characters", "bom-flood": "one run of ignored characters",
 	"invalid-bytes": "fails at the first byte",
+	"nonascii-string-unexpected": "one giant token", "nonascii-blockstring-unexpected": "one giant token", "nonascii-string-after-fragment-name": "one giant token",
+	"sdl-nonascii-description-extend": "one giant token", "sdl-nonascii-two-descriptions": "one giant token",
 }
 
 func c16FamilyCase(c *explore.Ctx, s *explore.SubStats, f *gen.Family, n, limit int) {
@@ -264,7 +266,7 @@ func runC16(c *explore.Ctx) {
 
 	// several sources: the limit applies to each source
 	s0 := c.Sub("limits-sources", "every ordered pair of type-system sentences of ≤ 3 tokens (core alphabet; schema definitions / extensions one token longer) as two sources × every assignment of the built-in flag × every limit −1 … max(N₁,N₂)+1 through ParseSchemasWithLimit",
-		"succeeds ⇔ every source parses without a limit ∧ (L = 0 ∨ every source has at most L tokens); identical tree on success", "pairs that parse")
+		"succeeds ⇔ every source parses without a limit ∧ (L = 0 ∨ every source has at most L tokens); identical tree on success; the slice the caller hands in holds the same sources afterwards (empty and comment-only sources included)", "pairs that parse")
 	if s0 != nil {
 		t0 := time.Now()
 		g := sdlSide.grammar()
@@ -276,6 +278,7 @@ func runC16(c *explore.Ctx) {
 		}
 		texts = append(texts, "type a { a : a } # c\n", "? a")
 		texts = append(texts, sourcesExtras...)
+		texts = append(texts, "", "# only a comment\n")
 		idx := 0
 		for _, a := range texts {
 			for _, b := range texts {
@@ -299,9 +302,19 @@ func runC16(c *explore.Ctx) {
 					for limit := -1; limit <= max+1; limit++ {
 						s0.Executions++
 						s0.Transitions++
-						d, err := parser.ParseSchemasWithLimit(limit, srcs()...)
+						given := srcs()
+						handed := append([]*ast.Source{}, given...)
+						d, err := parser.ParseSchemasWithLimit(limit, handed...)
 						s0.Validated++
-						want := ea == nil && eb == nil && (limit == 0 || (na <= limit && nb <= limit))
+						for i := range given {
+							if handed[i] != given[i] || given[i].Input != []string{a, b}[i] || given[i].Name != []string{"a", "b"}[i] {
+								c.Report(s0, explore.Violation{Key: "limit/sources-callers-slice-changed", Input: explore.J(sourcesInput{Sources: []string{a, b}, BuiltIn: []bool{flags&1 != 0, flags&2 != 0}}),
+									Rendered: fmt.Sprintf("%s\n---\n%s   limit=%d", a, b, limit), Detail: fmt.Sprintf("after ParseSchemasWithLimit element %d of the slice the caller handed in is another source (or its content changed)", i)})
+								break
+							}
+						}
+						// (a source without any token never meets the limit, also not a negative one)
+						want := ea == nil && eb == nil && (limit == 0 || ((na <= limit || na == 0) && (nb <= limit || nb == 0)))
 						in := sourcesInput{Sources: []string{a, b}, BuiltIn: []bool{flags&1 != 0, flags&2 != 0}}
 						rendered := fmt.Sprintf("%s\n---\n%s   builtin=%v limit=%d", a, b, in.BuiltIn, limit)
 						switch {
@@ -326,7 +339,7 @@ func runC16(c *explore.Ctx) {
 	}
 
 	// limit 0 and a limit above the token count behave like the unlimited entry point, at every size
-	s1 := c.Sub("families-unlimited", fmt.Sprintf("%d size families × n = 2^k up to 64 KiB, through the limited entry points with limit 0 and with limits 2³⁰, 2³¹, 2³²−1, 2³², 2³²+1, 2⁴⁰+3 and the largest int", len(gen.ParseFamilies)),
+	s1 := c.Sub("families-unlimited", fmt.Sprintf("%d size families × n = 2^k up to 64 KiB, through the limited entry points with limit 0 and with limits 2³⁰, 2³¹, 2³²−1, 2³², 2³²+1, 2⁴⁰+3 and the largest int, and (inputs that parse) with the exact token count N of ref/reflex, N−1 and N+1 (tokens of up to 64 KiB count once)", len(gen.ParseFamilies)),
 		"the limited entry point with limit 0 (unlimited) or a limit above the token count succeeds exactly when the unlimited entry point does", "every case")
 	if s1 != nil {
 		t0 := time.Now()
@@ -348,6 +361,26 @@ func runC16(c *explore.Ctx) {
 					_, uerr, ur := c16Parse(text, sdl, 0, true)
 					if ur.Panicked {
 						continue
+					}
+					// the exact token count of the input (ref/reflex) is enough, one less is not, whatever the size of the tokens
+					if lx := reflex.Lex(text, reflex.Defects{}); uerr == nil && lx.FailAt < 0 && !lx.Undecided {
+						nt := len(lx.Tokens)
+						for _, limit := range []int{nt, nt - 1, nt + 1} {
+							if limit <= 0 {
+								continue
+							}
+							s1.Executions++
+							s1.Transitions++
+							_, err, r := c16Parse(text, sdl, limit, false)
+							if r.Panicked {
+								continue
+							}
+							s1.Validated++
+							if (err == nil) != (limit >= nt) {
+								c.Report(s1, explore.Violation{Key: fmt.Sprintf("limit/exact-count-differs L=N%+d", limit-nt), Input: explore.J(famInput{f.Name, n, limit}), Rendered: fmt.Sprintf("family=%s n=%d limit=%d tokens=%d bytes=%d sdl=%v", f.Name, n, limit, nt, len(text), sdl),
+									Detail: fmt.Sprintf("the input has %d tokens and parses without a limit; with limit %d: %v", nt, limit, err)})
+							}
+						}
 					}
 					for _, limit := range []int{0, 1 << 30, 1 << 31, 1<<32 - 1, 1 << 32, 1<<32 + 1, 1<<40 + 3, math.MaxInt} {
 						s1.Executions++
